@@ -32,3 +32,18 @@ Theorem C17_host_combined_dropped_with_warning : forall o pc ph x px pb body be 
   (rest, warn st W_HOST pb).
 Proof. exact host_combined_dropped_with_warning. Qed.
 Print Assumptions C17_host_combined_dropped_with_warning.
+
+(* `: host` (whitespace after the colon) is not `:host`: ordinary qualified rule (fix bdd7adf, D26) *)
+Theorem C17_host_spaced_not_converted : forall o pc w pw r endp st,
+  qrule o (Leaf TColon pc :: Leaf (TWs w) pw :: r) endp st =
+  qr_loop o (Leaf TColon pc :: Leaf (TWs w) pw :: r) false false st.
+Proof. exact host_spaced_not_converted. Qed.
+Print Assumptions C17_host_spaced_not_converted.
+
+(* a comment between the colon and `host` does not separate the tokens *)
+Theorem C17_host_comment_still_host : forall o pc c pcm ph pb body be cl rest endp st,
+  convert_host o = true ->
+  qrule o (Leaf TColon pc :: Leaf (TComment c) pcm :: Leaf (TIdent s_host) ph :: Block TCurly pb body be cl :: rest) endp st =
+  (rest, host_emit o st pb body).
+Proof. exact host_comment_still_host. Qed.
+Print Assumptions C17_host_comment_still_host.
